@@ -22,14 +22,15 @@
 (*          <<"d",i>> digit    <<"c",x>> sign character                    *)
 (*          <<"v",pool,a>> atom   <<"b",bytes>> literal bytes              *)
 (***************************************************************************)
-EXTENDS Integers, Sequences, FiniteSets, TLC, FiniteSetsExt, Json, IOUtils
+EXTENDS Integers, Sequences, FiniteSets, TLC, FiniteSetsExt, SequencesExt, Json, IOUtils
 
 CONSTANTS Radius,      \* commits/tags: all cases within this Hamming distance of a base case
           TreeMax,     \* trees: all entry sets up to this size over the ordering universe
           Alphabet,    \* bytes used in tree entry names of the ordering universe
           Kinds,       \* which object kinds this run enumerates
           EmptyLine,   \* the atom that is the empty line (0 in the pools, <<>> in traces)
-          Edits        \* TRUE: explore the one-field-edit graph (lemmas); FALSE: enumerate the cases only
+          Edits,       \* TRUE: explore the one-field-edit graph (lemmas); FALSE: enumerate the cases only
+          Part         \* 0: the whole commit/tag space; 1, 2: one half of it (case enumeration by parallel TLC runs)
 
 KW(w) == <<"k", w>>
 SP    == <<"s">>
@@ -40,8 +41,7 @@ CH(x) == <<"c", x>>
 V(pool, a) == <<"v", pool, a>>
 B(bytes)   == <<"b", bytes>>
 
-RECURSIVE Cat(_)
-Cat(ss) == IF Len(ss) = 0 THEN <<>> ELSE Head(ss) \o Cat(Tail(ss))
+Cat(ss) == FlattenSeq(ss)       \* concatenation of a sequence of sequences
 
 \* ------------------------------------------------------------------ numbers
 RECURSIVE DecNat(_)
@@ -71,15 +71,11 @@ TzToks(z) == <<CH(IF z.off < 0 \/ z.negutc THEN "-" ELSE "+")>>
              \o PadDec(Abs(z.off) \div 3600, 2) \o PadDec((Abs(z.off) \div 60) % 60, 2)
 
 \* ------------------------------------------------------------------ header lines
-RECURSIVE JoinLF(_, _)       \* lines (atoms of pool) joined by LF
-JoinLF(pool, ls) == IF Len(ls) = 0 THEN <<>>
-                    ELSE IF Len(ls) = 1 THEN <<V(pool, ls[1])>>
-                    ELSE <<V(pool, ls[1]), LF>> \o JoinLF(pool, Tail(ls))
+\* lines (atoms of pool) joined by LF
+JoinLF(pool, ls) == Cat([i \in 1..Len(ls) |-> IF i < Len(ls) THEN <<V(pool, ls[i]), LF>> ELSE <<V(pool, ls[i])>>])
 
-RECURSIVE FoldLF(_)          \* header folding: every LF inside a value is followed by one SP
-FoldLF(ts) == IF Len(ts) = 0 THEN <<>>
-              ELSE IF Head(ts)[1] = "l" THEN <<LF, SP>> \o FoldLF(Tail(ts))
-              ELSE <<Head(ts)>> \o FoldLF(Tail(ts))
+\* header folding: every LF inside a value is followed by one SP
+FoldLF(ts) == Cat([i \in 1..Len(ts) |-> IF ts[i][1] = "l" THEN <<LF, SP>> ELSE <<ts[i]>>])
 
 HdrK(keytok, val) == <<keytok, SP>> \o FoldLF(val) \o <<LF>>
 Hdr(w, val) == HdrK(KW(w), val)
@@ -110,7 +106,6 @@ TagOK(t) == /\ (Len(t.tagger) > 0 => TimeOK(t.ttime) /\ TzOK(t.ttz))
 \* not part of the header value: it is the LF that ends the header.
 LastText(t) == IF Len(t.signature) > 0 THEN t.signature ELSE t.message
 EndsWithLF(t) == LET x == LastText(t) IN Len(x) >= 2 /\ x[Len(x)] = EmptyLine
-Front(s) == SubSeq(s, 1, Len(s) - 1)
 SerTagNoFinalLF(t) == LET s == TagSegs(t) IN
     s.target \o s.name \o s.tagger \o
     (IF Len(t.signature) > 0 THEN s.message \o JoinLF("ln", Front(t.signature))
@@ -278,15 +273,17 @@ RECURSIVE Ball(_, _, _)
 Ball(P, b, k) == IF k = 0 THEN {b} ELSE UNION {Ball1(P, c) : c \in Ball(P, b, k - 1)}
 Alt(P, b, f) == (b[f] % Len(P[f])) + 1
 Cube(P, b, tr) == {[f \in DOMAIN P |-> IF f \in S THEN Alt(P, b, f) ELSE b[f]] : S \in SUBSET {tr[i] : i \in 1..Len(tr)}}
-First(P) == [f \in DOMAIN P |-> 1]
-Last(P)  == [f \in DOMAIN P |-> Len(P[f])]
+FirstIx(P) == [f \in DOMAIN P |-> 1]
+LastIx(P) == [f \in DOMAIN P |-> Len(P[f])]
 CaseOf(P, ix) == [f \in DOMAIN P |-> P[f][ix[f]]]
 KeyStr(F, ix) == JoinStr([i \in 1..Len(F) |-> ToString(ix[F[i]])], ",")
 
 \* third base case: the object ends after its last header (message index 2 = <<>>, blank index 2 = FALSE)
-NoBlank(P) == [First(P) EXCEPT !.message = 2, !.blank = 2]
-IxSpace(P, Tr) == Ball(P, First(P), Radius) \cup Ball(P, Last(P), Radius) \cup Ball(P, NoBlank(P), Radius - 1)
-                  \cup UNION {Cube(P, First(P), Tr[i]) : i \in 1..Len(Tr)}
+NoBlank(P) == [FirstIx(P) EXCEPT !.message = 2, !.blank = 2]
+IxSpace(P, Tr) == (IF Part \in {0, 1} THEN Ball(P, FirstIx(P), Radius) \cup Ball(P, NoBlank(P), Radius - 1)
+                                           \cup UNION {Cube(P, FirstIx(P), Tr[i]) : i \in 1..Len(Tr)}
+                                      ELSE {})
+                  \cup (IF Part \in {0, 2} THEN Ball(P, LastIx(P), Radius) ELSE {})
 \* (TLCEval: enumerate once; a lazily filtered set would be re-filtered on every membership test)
 CommitSpace == TLCEval({ix \in IxSpace(CommitPool, CommitTriples) : CommitOK(CaseOf(CommitPool, ix))})
 TagSpace    == TLCEval({ix \in IxSpace(TagPool, TagTriples) : TagOK(CaseOf(TagPool, ix))})
@@ -383,18 +380,22 @@ WellFormed == CASE kind = "commit" -> CommitOK(case)
 
 \* a one-field edit changes only the segment that field belongs to
 SegsOf(k, c) == IF k = "commit" THEN CommitSegs(c) ELSE TagSegs(c)
-SegsStableStep ==
+\* ... and it does change that segment (the grammar is unambiguous along every edit), except where two
+\* cases are the same object: a tag without tagger has no tag time and zone
+SameObject(k, c, d) == c = d \/ (k = "tag" /\ Len(c.tagger) = 0 /\ Len(d.tagger) = 0
+                                  /\ [c EXCEPT !.ttime = d.ttime, !.ttz = d.ttz] = d)
+EditLemmaStep ==
     kind \in {"commit", "tag"} =>
         LET s0 == SegsOf(kind, case) s1 == SegsOf(kind, case')
-        IN \A g \in DOMAIN s0 :
-             (\A f \in DOMAIN ix : ix'[f] # ix[f] => GroupOf(f) # g) => (s1[g] = s0[g])
-OtherSegsStable == [][SegsStableStep]_vars
+        IN /\ \A g \in DOMAIN s0 :
+                (\A f \in DOMAIN ix : ix'[f] # ix[f] => GroupOf(f) # g) => (s1[g] = s0[g])
+           /\ (s1 = s0 => SameObject(kind, case, case'))
+OtherSegsStable == [][EditLemmaStep]_vars
 
 \* tree entries come out strictly increasing in git order whatever the set; adding or removing an
 \* entry leaves the relative order and the bytes of all other entries alone
 TreeSorted == kind = "tree" =>
     LET s == SortEntries(case) IN \A i \in 1..(Len(s) - 1) : GitLess(s[i], s[i + 1])
-RemoveAt(s, i) == SubSeq(s, 1, i - 1) \o SubSeq(s, i + 1, Len(s))
 TreeEditStep ==
     kind = "tree" =>
         LET a == SortEntries(case) b == SortEntries(case')
